@@ -1309,6 +1309,17 @@ class Repository:
             finally:
                 await chunk_producer
 
+        # Files that no chunk overlaps with: empty files when the stream produced
+        # no chunks at all (e.g. nothing but empty files)
+        for _, file in state.files:
+            if file.path not in snapshot_files:
+                snapshot_files[file.path] = {
+                    'path': file.path,
+                    'chunks': [],
+                    'digest': file.digest,
+                    'metadata': file.metadata,
+                }
+
         now = datetime.utcnow()
         snapshot_data = {
             'utc_timestamp': str(now),
